@@ -518,3 +518,43 @@ def corpus_retry():
          "Later": o(value={"type": "integer"}), "SackBase": o(base={"type": "string"})},
         {"/sack": {"get": {"operationId": "get_sack", "tags": ["x"], "responses": ok(_ref("Sack"))}}})))
     return out
+
+
+# ================================================================ C12: every property kind as OPTIONAL next to another optional property (ADDED)
+KIND_SCHEMAS = {
+    "any": {}, "bool": {"type": "boolean"}, "int": {"type": "integer"}, "float": {"type": "number"}, "str": {"type": "string"},
+    "date": {"type": "string", "format": "date"}, "datetime": {"type": "string", "format": "date-time"}, "uuid": {"type": "string", "format": "uuid"},
+    "file": {"type": "string", "format": "binary"}, "null": {"type": "null"},
+    "conststr": {"const": "fixed"}, "constint": {"const": 7},
+    "enumstr": {"type": "string", "enum": ["a", "b"]}, "enumint": {"type": "integer", "enum": [1, 2]},
+    "enumref": {"$ref": REF + "Shade"}, "modelref": {"$ref": REF + "Other"},
+    "list": {"type": "array", "items": {"type": "string"}}, "listref": {"type": "array", "items": {"$ref": REF + "Other"}},
+    "unionscalar": {"anyOf": [{"type": "string"}, {"type": "integer"}]}, "unionconst": {"oneOf": [{"const": "x"}, {"const": "y"}]},
+    "unionmodel": {"oneOf": [{"$ref": REF + "Other"}, {"$ref": REF + "Third"}]}, "typelist": {"type": ["string", "integer", "null"]},
+}
+KIND_QUERY = ("bool", "int", "float", "str", "date", "datetime", "uuid", "conststr", "constint", "enumstr", "enumint", "enumref", "list", "unionscalar", "unionconst", "any")
+KIND_HEADER = ("bool", "int", "float", "str", "enumstr", "enumint", "enumref", "unionscalar")
+
+
+def kinds_optional_document():
+    """Hash-seed document: one model with every kind optional, one two-property model per kind (the kind + an optional string, both optional), one
+    operation per kind with that kind and a string as OPTIONAL query parameters, one operation with all of them (query / header / cookie).
+    Every import set that a kind can contribute to therefore occurs together with what another optional property contributes."""
+    import copy as _c
+    k = lambda n: _c.deepcopy(KIND_SCHEMAS[n])
+    schemas = {"Other": {"type": "object", "properties": {"o": {"type": "string"}}}, "Third": {"type": "object", "properties": {"t": {"type": "integer"}}},
+               "Shade": {"type": "string", "enum": ["dark", "light"]}}
+    schemas["AllKinds"] = {"type": "object", "properties": {f"opt_{n}": k(n) for n in KIND_SCHEMAS}}
+    for n in KIND_SCHEMAS:
+        schemas["Pair" + n.capitalize()] = {"type": "object", "properties": {"first": k(n), "second": {"type": "string"}}}
+        schemas["Trio" + n.capitalize()] = {"type": "object", "properties": {"zed": {"type": "integer"}, "mid": k(n), "alpha": {"type": "string", "format": "date"}}, "required": ["zed"]}
+    ok = {"200": {"description": "ok", "content": {"application/json": {"schema": {"type": "string"}}}}}
+    paths = {}
+    for n in KIND_QUERY:
+        paths[f"/q/{n}"] = {"get": {"operationId": f"query_{n}", "tags": ["kinds"], "parameters": [{"name": "first", "in": "query", "schema": k(n)}, {"name": "second", "in": "query", "schema": {"type": "string"}}],
+                                    "responses": ok}}
+    allp = [{"name": f"q_{n}", "in": "query", "schema": k(n)} for n in KIND_QUERY]
+    allp += [{"name": f"h-{n}", "in": "header", "schema": k(n)} for n in KIND_HEADER] + [{"name": f"c_{n}", "in": "cookie", "schema": k(n)} for n in KIND_HEADER]
+    paths["/all"] = {"post": {"operationId": "all_kinds", "tags": ["kinds"], "parameters": allp,
+                              "requestBody": {"content": {"application/json": {"schema": {"$ref": REF + "AllKinds"}}}}, "responses": ok}}
+    return {"openapi": "3.1.0", "info": {"title": "kinds", "version": "1"}, "paths": paths, "components": {"schemas": schemas}}
